@@ -548,6 +548,13 @@ fn gen_hist(rng: &mut Rng, stats: &mut Stats, thorough: bool) -> String {
     let mut states = vec![to_entries(&files)];
     let n_states = if thorough { 2 + rng.below(4) } else { 1 + rng.below(3) };
     for _ in 0..n_states {
+        // a tree-collision file changes whenever its directory does, possibly without changing its size: give it a
+        // new mtime in every state, so that a parent-based backup never takes it for unchanged (that case is C11's)
+        for v in files.values_mut() {
+            if v.0 == K::File && matches!(table.get(v.2), Some(Content::TreeOf(_))) {
+                v.1 += 1;
+            }
+        }
         for _ in 0..rng.below(3) {
             let file_paths: Vec<Vec<Vec<u8>>> = files.iter().filter(|(_, v)| v.0 == K::File).map(|(p, _)| p.clone()).collect();
             match rng.below(10) {
